@@ -256,6 +256,43 @@ def gen_two_pools(rng, count):
     return cases
 
 
+def gen_aw_race(rng, count):
+    """co_await pool(awaitable) on an operation resolved by ANOTHER thread: one client parks coroutines (`ax<n>`, scheduling
+    point right after the registration on the awaited future, still inside enqueue_awaiter::await_suspend), another client
+    (`res<n>`) or a job (`v<n>`) resolves as soon as the awaiter is registered and thereby submits the coroutine. Half of
+    the schedules give the baton to the resolver at that very point. Mostly without stop(), so a lost coroutine shows."""
+    cases = []
+    for _ in range(count):
+        nw = rng.randint(1, 2)
+        nslots = rng.randint(1, 3)
+        parker = []
+        for n in range(nslots):
+            if rng.random() < 0.3:
+                parker.append(rand_submit(rng, False, bare=0.0))
+            p = rng.choice(["", "", "q", "f", "d", "c"])
+            parker.append("ax%d" % n + (":" + p if p else ""))
+        resolver = []
+        for n in rng.sample(range(nslots), nslots):
+            if rng.random() < 0.7:
+                resolver.append("res%d" % n)
+            else:
+                resolver.append(rng.choice(["fn", "det", "co"]) + ":v%d" % n)
+        clients = [parker, resolver]
+        if rng.random() < 0.3:
+            clients.append([rand_submit(rng, False, bare=0.0) for _ in range(rng.randint(1, 2))])
+        if rng.random() < 0.15:
+            clients[rng.randrange(len(clients))].append("stop")
+        n = nw + len(clients)
+        if rng.random() < 0.5:
+            # workers idle, the resolver blocks, then strictly alternate parker / resolver
+            sched = [w for w in range(nw) for _ in range(2)] + [nw + 1] + [t for _ in range(4 * nslots + 4) for t in (nw, nw + 1, nw + 1)]
+            sched += random_sched(rng, n, rng.choice([0, 20]))
+        else:
+            sched = random_sched(rng, n, rng.choice([10, 30, 60, 100]))
+        cases.append(make_case(nw, clients, sched, "cvy" if rng.random() < 0.2 else ""))
+    return cases
+
+
 def gen_exhaustive(shapes, length):
     """every schedule prefix of `length` entries over the scenario's threads"""
     cases = []
@@ -274,6 +311,9 @@ EXH_SHAPES_2T = [
 EXH_SHAPES_CUR = [
     (1, [["co:cq", "stop"]]), (1, [["co:sc", "detL"]]), (1, [["rh:ac", "curc", "stop"]]), (1, [["detF", "stop", "detG"]]),
 ]
+EXH_SHAPES_AW = [
+    (1, [["ax0"], ["res0"]]), (1, [["ax0", "stop"], ["res0"]]), (1, [["ax0:c"], ["det:v0"]]),
+]
 EXH_SHAPES_3T = [
     (2, [["co", "fn", "stop"]]), (1, [["co", "fn"], ["stop"]]), (2, [["det:s", "det:s"]]), (1, [["stop"], ["stop", "co"]]),
     (2, [["det:w0", "co:e0"]]), (2, [["fn:w0", "det:e0"]]), (2, [["det:f", "destroy"]]), (2, [["fn", "co:D"]]), (2, [["det", "det:x"]]), (1, [["fn:s"], ["stop"]]),
@@ -285,7 +325,7 @@ def parse(case, out):
     nw = int(hdr[3])
     nc = sum(1 for l in case["lines"] if l.split()[0] == "c")
     has_b = "B" in hdr[4:]
-    info = {"nw": nw, "nt": nw + nc + (1 if has_b else 0), "hasB": has_b, "bw": nw if has_b else None, "b_events": [], "cur_events": [], "function_bad": None, "throws": set(), "closures_live": 0, "jobs": {}, "events": [], "quiescent": False, "crash": None, "assert": None,
+    info = {"nw": nw, "nt": nw + nc + (1 if has_b else 0), "hasB": has_b, "bw": nw if has_b else None, "b_events": [], "cur_events": [], "function_bad": None, "throws": set(), "parks": [], "closures_live": 0, "jobs": {}, "events": [], "quiescent": False, "crash": None, "assert": None,
             "threads": None, "final": {}, "pool": None, "fin": set(), "ops": [], "last": {}}
     for idx, l in enumerate(out):
         w = l.split()
@@ -295,6 +335,8 @@ def parse(case, out):
             j = int(w[1][1:])
             info["jobs"][j] = {"kind": w[2], "by": int(w[3][1:]), "exit": w[4] == "exit=1", "runs": [], "cancels": [], "values": [], "at": idx}
             info["events"].append(("submit", j, idx))
+        elif w[0] == "park":
+            info["parks"].append((int(w[1][1:]), int(w[2][1:]), idx))
         elif w[0] == "throw":
             info["throws"].add(int(w[1][1:]))
         elif w[0] in ("run", "cancel", "value", "exc"):
@@ -351,14 +393,15 @@ class PoolSuite(Suite):
 
     def gen_cases(self, rng, tier):
         if tier == "quick":
-            return with_current_api(rng, with_cv_yield(rng, gen_stop_family(rng, 3000) + gen_destroy_client(rng, 800)
+            return (with_current_api(rng, with_cv_yield(rng, gen_stop_family(rng, 3000) + gen_destroy_client(rng, 800)
                                     + gen_destroy_job(rng, 800) + gen_idle_family(rng, 600) + gen_dependent_family(rng, 800))
                                     + gen_two_pools(rng, 800)) + gen_exhaustive(EXH_SHAPES_2T[:4] + EXH_SHAPES_CUR, 8)
+                    + gen_aw_race(rng, 600) + gen_exhaustive(EXH_SHAPES_AW, 7))
         base = (gen_stop_family(rng, 60000) + gen_destroy_client(rng, 14000) + gen_destroy_job(rng, 14000) + gen_idle_family(rng, 8000)
                 + gen_dependent_family(rng, 12000))
         exh = gen_exhaustive(EXH_SHAPES_2T, 12) + gen_exhaustive(EXH_SHAPES_3T, 8)
         exh_cv = [dict(c, lines=[c["lines"][0] + " cvy"] + c["lines"][1:]) for c in gen_exhaustive(EXH_SHAPES_2T[:6], 11)]
-        exh += gen_exhaustive(EXH_SHAPES_CUR, 12)
+        exh += gen_exhaustive(EXH_SHAPES_CUR, 12) + gen_exhaustive(EXH_SHAPES_AW, 10) + gen_aw_race(rng, 10000)
         return with_current_api(rng, with_cv_yield(rng, base) + gen_two_pools(rng, 12000)) + exh + exh_cv
 
     def normalize(self, lines):
@@ -545,7 +588,7 @@ class PoolSuite(Suite):
               "user_deadlock_ends": 0, "dependent_pairs": 0,
               "cv_entry_yield_cases": 0, "current_is_stopped": 0, "current_any_enqueued": 0, "current_co_await_inline": 0,
               "current_co_await_resubmitted": 0, "current_api_from_non_worker": 0, "closures_large_heap": 0,
-              "closures_via_caller_function": 0, "fn_throwing": 0, "fn_threw_and_reported": 0,
+              "closures_via_caller_function": 0, "aw_parked": 0, "aw_submitted_by_other_thread": 0, "aw_resolved_at_registration_point": 0, "fn_throwing": 0, "fn_threw_and_reported": 0,
               "fn_void": 0, "fn_large_closure": 0, "lock_blocks": 0, "two_pool_cases": 0, "other_pool_stops": 0, "other_pool_destroys": 0}
         for c in cases:
             o = outs.get(str(c["id"]), [])
@@ -591,6 +634,12 @@ class PoolSuite(Suite):
             st["current_api_from_non_worker"] += sum(1 for k, t, r, idx in i["cur_events"] if t >= i["nw"])
             st["current_co_await_resubmitted"] += sum(1 for j, jb in i["jobs"].items() if jb["kind"] == "co" and jb["by"] < i["nw"])
             words = [w for l in c["lines"] if l.startswith("c ") for w in l.split()[1:]]
+            st["aw_parked"] += len(i["parks"])
+            parkers = {t for n, t, idx in i["parks"]}
+            st["aw_submitted_by_other_thread"] += sum(1 for j, jb in i["jobs"].items() if jb["kind"] == "aw" and parkers and jb["by"] not in parkers)
+            for n, t, idx in i["parks"]:       # the submit of the resolver directly follows the aw-reg op of the parker
+                if idx + 2 < len(o) and o[idx + 1].split()[2:3] == ["aw-reg"] and o[idx + 2].startswith("submit ") and " aw " in o[idx + 2]:
+                    st["aw_resolved_at_registration_point"] += 1
             fnw = [w.split(":")[0][2:] for w in words if w.startswith("fn")]
             st["fn_throwing"] += sum(1 for f in fnw if "T" in f)
             st["fn_void"] += sum(1 for f in fnw if "V" in f)
